@@ -65,7 +65,8 @@ def build(backend, tables=True, profile="release", features=()):
     cid = cfg_id(backend, tables, profile, features)
     tdir = os.path.join(BUILD, cid)
     os.makedirs(tdir, exist_ok=True)
-    feats = list(features) + (["tables"] if tables else [])
+    # "nz" is a pseudo-feature: the three crates WITHOUT their `zeroize` feature (every other build has it)
+    feats = [f for f in features if f != "nz"] + (["tables"] if tables else []) + ([] if "nz" in features else ["zeroize"])
     if backend in ("v2", "v512"):
         feats.append("simd")
     if backend == "v512":
